@@ -7,7 +7,7 @@ set -u
 PID=$1; WT=$2; shift 2
 CHECKS="${*:-$PID}"
 VERIF="$(cd "$(dirname "$0")/.." && pwd)"
-OUT="$VERIF/seeded/$PID"; mkdir -p "$OUT"
+OUT="$VERIF/seeded/$PID${SUFFIX:-}"; mkdir -p "$OUT"   # SUFFIX=_r2 for the second round
 cd "$WT" || exit 2
 git diff -- dagrt > "$OUT/patch.diff"
 [ -s "$OUT/patch.diff" ] || { echo "no source change in $WT"; exit 2; }
